@@ -3,12 +3,21 @@
 package expr
 
 import (
+	"math"
+
 	"github.com/brimdata/super"
 	"github.com/brimdata/super/internal/verif"
 	samexpr "github.com/brimdata/super/runtime/sam/expr"
 	"github.com/brimdata/super/vector"
 	"github.com/brimdata/super/zcode"
 )
+
+// C09: the vector runtime (runtime/vam) agrees with the sequential runtime
+// (runtime/sam).  Every harness below builds ONE logical value per operand,
+// hands it to the sequential runtime as a zed.Value and to the vector runtime
+// as slot 0 of a one-slot vector in one of the physical forms the loader and
+// the operators produce (flat, const, dict, view), evaluates the same
+// expression in both and compares the two results.
 
 // ---- operands: the same value for both runtimes ----
 
@@ -30,12 +39,12 @@ const (
 	vfView
 )
 
-var vFormName = []string{"flat", "const", "dict", "view"}
-
 // vOperand is one value presented to the sequential runtime as a zed.Value
 // and to the vector runtime as slot 0 of a one-slot vector.
 type vOperand struct {
 	kind int
+	null bool
+	typ  zed.Type
 	val  zed.Value
 	vec  vector.Any
 	i    int64
@@ -45,91 +54,216 @@ type vOperand struct {
 	b    bool
 }
 
-// vWrapForm presents slot 1 of the two-slot flat vector `two` (slot 0 is an
-// unrelated value) as a one-slot dict or view, or returns `one`/const.
-func vWrapForm(form int, val zed.Value, one, two vector.Any) vector.Any {
-	switch form {
+// vSpec selects how an operand is made.
+type vSpec struct {
+	kind   int
+	form   int
+	typ    zed.Type // nil: the 64-bit (or only) type of the kind
+	narrow bool     // integer payload limited to 16 bits (kept in a 64-bit type)
+	null   bool     // the value is null
+}
+
+func vNulls(n uint32, slot uint32, null bool) *vector.Bool {
+	if !null {
+		return nil
+	}
+	b := vector.NewBoolEmpty(n, nil)
+	b.Set(slot)
+	return b
+}
+
+// vWrapForm presents the value as a one-slot vector of the requested form.
+// one: one-slot flat vector; two: two-slot flat vector whose slot 1 is the
+// value (slot 0 is unrelated) used under dict and view; for a null value the
+// shapes are those vcache.loader builds (zero payload + Nulls bit; dict index
+// 0 + Nulls bit; const value + Nulls bit).
+func vWrapForm(sp vSpec, constVal zed.Value, one, two, dictVals vector.Any) vector.Any {
+	switch sp.form {
 	case vfFlat:
 		return one
 	case vfConst:
-		return vector.NewConst(val, 1, nil)
+		return vector.NewConst(constVal, 1, vNulls(1, 0, sp.null))
 	case vfDict:
-		return vector.NewDict(two, []byte{1}, []uint32{0, 1}, nil)
+		if sp.null {
+			return vector.NewDict(dictVals, []byte{0}, []uint32{0, 0}, vNulls(1, 0, true))
+		}
+		return vector.NewDict(dictVals, []byte{1}, []uint32{0, 1}, nil)
 	case vfView:
 		return vector.NewView([]uint32{1}, two)
 	}
 	panic("form")
 }
 
-// vMkOperand creates a symbolic payload of the given kind (type = the 64-bit
-// / only type of the kind) in the given vector form.
-func vMkOperand(name string, kind, form int) vOperand {
-	o := vOperand{kind: kind}
-	switch kind {
+func vIntPayload(name string, typ zed.Type, narrow bool) int64 {
+	switch typ.ID() {
+	case zed.IDInt8:
+		return int64(verif.Int8(name + ".i8"))
+	case zed.IDInt16:
+		return int64(verif.Int16(name + ".i16"))
+	case zed.IDInt32:
+		return int64(verif.Int32(name + ".i32"))
+	}
+	if narrow {
+		return int64(verif.Int16(name + ".i16"))
+	}
+	return verif.Int64(name)
+}
+
+func vUintPayload(name string, typ zed.Type, narrow bool) uint64 {
+	switch typ.ID() {
+	case zed.IDUint8:
+		return uint64(verif.Uint8(name + ".u8"))
+	case zed.IDUint16:
+		return uint64(verif.Uint16(name + ".u16"))
+	case zed.IDUint32:
+		return uint64(verif.Uint32(name + ".u32"))
+	}
+	if narrow {
+		return uint64(verif.Uint16(name + ".u16"))
+	}
+	return verif.Uint64(name)
+}
+
+// vMkOperand creates a symbolic payload as described by sp.
+func vMkOperand(name string, sp vSpec) vOperand {
+	o := vOperand{kind: sp.kind, null: sp.null, typ: sp.typ}
+	switch sp.kind {
 	case vkInt:
-		o.i = verif.Int64(name)
+		if o.typ == nil {
+			o.typ = zed.TypeInt64
+		}
 		junk := verif.Int64(name + ".other")
-		o.val = zed.NewInt64(o.i)
-		o.vec = vWrapForm(form, o.val,
-			vector.NewInt(zed.TypeInt64, []int64{o.i}, nil),
-			vector.NewInt(zed.TypeInt64, []int64{junk, o.i}, nil))
+		if !sp.null {
+			o.i = vIntPayload(name, o.typ, sp.narrow)
+			o.val = zed.NewInt(o.typ, o.i)
+		} else {
+			o.val = zed.NewValue(o.typ, nil)
+		}
+		cv := zed.NewInt(o.typ, o.i)
+		if sp.null {
+			cv = zed.NewInt(o.typ, junk)
+		}
+		o.vec = vWrapForm(sp, cv,
+			vector.NewInt(o.typ, []int64{o.i}, vNulls(1, 0, sp.null)),
+			vector.NewInt(o.typ, []int64{junk, o.i}, vNulls(2, 1, sp.null)),
+			vector.NewInt(o.typ, []int64{junk, o.i}, nil))
 	case vkUint:
-		o.u = verif.Uint64(name)
+		if o.typ == nil {
+			o.typ = zed.TypeUint64
+		}
 		junk := verif.Uint64(name + ".other")
-		o.val = zed.NewUint64(o.u)
-		o.vec = vWrapForm(form, o.val,
-			vector.NewUint(zed.TypeUint64, []uint64{o.u}, nil),
-			vector.NewUint(zed.TypeUint64, []uint64{junk, o.u}, nil))
+		if !sp.null {
+			o.u = vUintPayload(name, o.typ, sp.narrow)
+			o.val = zed.NewUint(o.typ, o.u)
+		} else {
+			o.val = zed.NewValue(o.typ, nil)
+		}
+		cv := zed.NewUint(o.typ, o.u)
+		if sp.null {
+			cv = zed.NewUint(o.typ, junk)
+		}
+		o.vec = vWrapForm(sp, cv,
+			vector.NewUint(o.typ, []uint64{o.u}, vNulls(1, 0, sp.null)),
+			vector.NewUint(o.typ, []uint64{junk, o.u}, vNulls(2, 1, sp.null)),
+			vector.NewUint(o.typ, []uint64{junk, o.u}, nil))
 	case vkFloat:
-		o.f = verif.Float64(name)
+		o.typ = zed.TypeFloat64
 		junk := verif.Float64(name + ".other")
-		o.val = zed.NewFloat64(o.f)
-		o.vec = vWrapForm(form, o.val,
-			vector.NewFloat(zed.TypeFloat64, []float64{o.f}, nil),
+		if !sp.null {
+			o.f = verif.Float64(name)
+			o.val = zed.NewFloat64(o.f)
+		} else {
+			o.val = zed.NullFloat64
+		}
+		cv := zed.NewFloat64(o.f)
+		if sp.null {
+			cv = zed.NewFloat64(junk)
+		}
+		o.vec = vWrapForm(sp, cv,
+			vector.NewFloat(zed.TypeFloat64, []float64{o.f}, vNulls(1, 0, sp.null)),
+			vector.NewFloat(zed.TypeFloat64, []float64{junk, o.f}, vNulls(2, 1, sp.null)),
 			vector.NewFloat(zed.TypeFloat64, []float64{junk, o.f}, nil))
 	case vkString:
-		o.s = verif.String(name, 2)
+		o.typ = zed.TypeString
 		junk := verif.StringN(name+".other", 1)
-		o.val = zed.NewString(o.s)
-		one := vector.NewStringEmpty(1, nil)
+		if !sp.null {
+			o.s = verif.String(name, 2)
+			o.val = zed.NewString(o.s)
+		} else {
+			o.val = zed.NullString
+		}
+		cv := zed.NewString(o.s)
+		if sp.null {
+			cv = zed.NewString(junk)
+		}
+		one := vector.NewStringEmpty(1, vNulls(1, 0, sp.null))
 		one.Append(o.s)
-		two := vector.NewStringEmpty(2, nil)
+		two := vector.NewStringEmpty(2, vNulls(2, 1, sp.null))
 		two.Append(junk)
 		two.Append(o.s)
-		o.vec = vWrapForm(form, o.val, one, two)
+		dv := vector.NewStringEmpty(2, nil)
+		dv.Append(junk)
+		dv.Append(o.s)
+		o.vec = vWrapForm(sp, cv, one, two, dv)
 	case vkBytes:
-		o.s = verif.String(name, 2)
+		o.typ = zed.TypeBytes
 		junk := verif.StringN(name+".other", 1)
-		o.val = zed.NewBytes([]byte(o.s))
-		one := vector.NewBytesEmpty(1, nil)
+		if !sp.null {
+			o.s = verif.String(name, 2)
+			o.val = zed.NewBytes([]byte(o.s))
+		} else {
+			o.val = zed.NullBytes
+		}
+		cv := zed.NewBytes([]byte(o.s))
+		if sp.null {
+			cv = zed.NewBytes([]byte(junk))
+		}
+		one := vector.NewBytesEmpty(1, vNulls(1, 0, sp.null))
 		one.Append([]byte(o.s))
-		two := vector.NewBytesEmpty(2, nil)
+		two := vector.NewBytesEmpty(2, vNulls(2, 1, sp.null))
 		two.Append([]byte(junk))
 		two.Append([]byte(o.s))
-		o.vec = vWrapForm(form, o.val, one, two)
+		dv := vector.NewBytesEmpty(2, nil)
+		dv.Append([]byte(junk))
+		dv.Append([]byte(o.s))
+		o.vec = vWrapForm(sp, cv, one, two, dv)
 	case vkBool:
-		o.b = verif.Bool(name)
-		junk := verif.Bool(name + ".other")
-		o.val = zed.NewBool(o.b)
-		one := vector.NewBoolEmpty(1, nil)
-		if o.b {
-			one.Set(0)
+		o.typ = zed.TypeBool
+		junk := verif.Bool(name + ".otherb")
+		if !sp.null {
+			o.b = verif.Bool(name + ".b")
+			o.val = zed.NewBool(o.b)
+		} else {
+			o.val = zed.NullBool
 		}
-		two := vector.NewBoolEmpty(2, nil)
-		if junk {
-			two.Set(0)
+		cv := zed.NewBool(o.b)
+		if sp.null {
+			cv = zed.NewBool(junk)
 		}
-		if o.b {
-			two.Set(1)
+		mk := func(n uint32, nulls *vector.Bool) *vector.Bool {
+			v := vector.NewBoolEmpty(n, nulls)
+			if n == 1 {
+				if o.b {
+					v.Set(0)
+				}
+				return v
+			}
+			if junk {
+				v.Set(0)
+			}
+			if o.b {
+				v.Set(1)
+			}
+			return v
 		}
-		o.vec = vWrapForm(form, o.val, one, two)
+		o.vec = vWrapForm(sp, cv, mk(1, vNulls(1, 0, sp.null)), mk(2, vNulls(2, 1, sp.null)), mk(2, nil))
 	default:
 		panic("kind")
 	}
 	return o
 }
 
-func (o vOperand) isNaN() bool { return o.kind == vkFloat && o.f != o.f }
+func (o vOperand) isNaN() bool { return o.kind == vkFloat && !o.null && o.f != o.f }
 
 // vVecEval is the harness-side leaf evaluator of the vector runtime: it
 // yields a fixed vector (stands for a column reference).
@@ -157,6 +291,8 @@ func vRun(f func()) (panicked bool) {
 	return false
 }
 
+// ---- O1: comparisons ----
+
 var vCmpOps = []string{"==", "!=", "<", "<=", ">", ">="}
 
 func vCmpResult(op string, c int) bool {
@@ -175,6 +311,18 @@ func vCmpResult(op string, c int) bool {
 		return c >= 0
 	}
 	panic(op)
+}
+
+func vToFloat(o vOperand) float64 {
+	switch o.kind {
+	case vkInt:
+		return float64(o.i)
+	case vkUint:
+		return float64(o.u)
+	case vkFloat:
+		return o.f
+	}
+	panic("spec kind")
 }
 
 // vSpecCompare is the reference ordering used only to attribute a
@@ -210,27 +358,7 @@ func vSpecCompare(l, r vOperand) int {
 		return c3(!l.b && r.b, l.b == r.b)
 	}
 	// a float is involved: both runtimes convert the other side to float64
-	var lf, rf float64
-	switch l.kind {
-	case vkInt:
-		lf = float64(l.i)
-	case vkUint:
-		lf = float64(l.u)
-	case vkFloat:
-		lf = l.f
-	default:
-		panic("spec kind")
-	}
-	switch r.kind {
-	case vkInt:
-		rf = float64(r.i)
-	case vkUint:
-		rf = float64(r.u)
-	case vkFloat:
-		rf = r.f
-	default:
-		panic("spec kind")
-	}
+	lf, rf := vToFloat(l), vToFloat(r)
 	if lf != lf || rf != rf {
 		return 2
 	}
@@ -255,14 +383,31 @@ func vSamCompare(zctx *zed.Context, l, r zed.Value, op string) zed.Value {
 	return e.Eval(ectx, zed.Null)
 }
 
+// vKnownRegion names the regions in which the two runtimes are already known
+// to differ (each gets its own coarse assertion id so that it can be listed
+// precisely as a known finding); "" outside them.
+func vKnownRegion(l, r vOperand) string {
+	if l.null || r.null {
+		return "null-operand"
+	}
+	if l.isNaN() || r.isNaN() {
+		return "nan"
+	}
+	if l.kind == vkUint && r.kind == vkInt && l.u > math.MaxInt64 ||
+		l.kind == vkInt && r.kind == vkUint && r.u > math.MaxInt64 {
+		return "uint-above-maxint64-vs-signed"
+	}
+	return ""
+}
+
 // vCheckCompare evaluates `l op r` for every comparison operator in both
 // runtimes and asserts that the answers agree: both errors, or the same
-// Boolean.  region is appended to the assertion ids.
-func vCheckCompare(l, r vOperand, region string) {
+// Boolean.  kinds (e.g. "int-uint") is part of every assertion id.
+func vCheckCompare(l, r vOperand, kinds string) {
 	zctx := zed.NewContext()
-	nan := l.isNaN() || r.isNaN()
-	if nan {
-		region += "/nan"
+	region := vKnownRegion(l, r)
+	if region != "" {
+		verif.Reach(region)
 	}
 	for _, op := range vCmpOps {
 		var vv zed.Value
@@ -273,17 +418,17 @@ func vCheckCompare(l, r vOperand, region string) {
 			vv = vMaterialize(out)
 		})
 		sv := vSamCompare(zctx, l.val, r.val, op)
-		verif.Assert(!panicked, "vam-panics/"+region)
+		verif.Assert(!panicked, "vam-panics/"+kinds)
 		if panicked {
 			continue
 		}
-		verif.Assert(vlen == 1, "vam-length/"+region)
+		verif.Assert(vlen == 1, "vam-length/"+kinds)
 		verr, serr := vv.IsError(), sv.IsError()
 		if verr != serr {
 			if verr {
-				verif.Assert(false, "only-vam-errors/"+region)
+				verif.Assert(false, "only-vam-errors/"+kinds)
 			} else {
-				verif.Assert(false, "only-sam-errors/"+region)
+				verif.Assert(false, "only-sam-errors/"+kinds)
 			}
 			continue
 		}
@@ -293,35 +438,357 @@ func vCheckCompare(l, r vOperand, region string) {
 		}
 		vIsBool := !vv.IsNull() && vv.Type() == zed.TypeBool
 		sIsBool := !sv.IsNull() && sv.Type() == zed.TypeBool
-		verif.Assert(vIsBool, "vam-not-bool/"+region)
-		verif.Assert(sIsBool, "sam-not-bool/"+region)
+		verif.Assert(vIsBool, "vam-not-bool/"+kinds)
+		verif.Assert(sIsBool, "sam-not-bool/"+kinds)
 		if !vIsBool || !sIsBool {
 			continue
 		}
 		vb, sb := vv.Bool(), sv.Bool()
 		verif.Observe("vam "+op, vb)
 		verif.Observe("sam "+op, sb)
-		if vb != sb {
-			// attribute the disagreement
-			c := vSpecCompare(l, r)
-			spec := c != 2 && vCmpResult(op, c) || c == 2 && op == "!="
-			if sb != spec {
-				verif.Assert(false, "disagree-sam-wrong/"+region+"/"+op)
-			} else {
-				verif.Assert(false, "disagree-vam-wrong/"+region+"/"+op)
-			}
+		if vb == sb {
+			continue
+		}
+		if region != "" {
+			verif.Assert(false, "disagree/"+kinds+"/"+region)
+			continue
+		}
+		// attribute the disagreement to the side that departs from the
+		// plain ordering of the payloads
+		c := vSpecCompare(l, r)
+		if sb != vCmpResult(op, c) {
+			verif.Assert(false, "disagree-sam-wrong/"+kinds+"/"+op)
+		} else {
+			verif.Assert(false, "disagree-vam-wrong/"+kinds+"/"+op)
 		}
 	}
 	verif.Reach("end")
 }
 
-// verif:desc C09-O1 comparisons of two numbers: vam/expr.Compare.Eval (vector.Apply, coerceVals, promoteToSigned/intToFloat, the generated compare<Op><Kind><Form><Form> kernels) on one-slot vectors vs sam/expr.Equal.Eval / Compare.Eval (coerce.Equal, compareNumbers) on the same two values, for all six operators: both error or the same Boolean; the vector side does not panic.
-// verif:bounds lhs,rhs kind in {int64,uint64,float64}^2, any payload (all 2^64 bit patterns incl. NaN, +-0, +-Inf); vector form of each side in {flat, const, dict, view} (dict/view select slot 1 of a two-slot vector whose slot 0 is arbitrary); ops ==,!=,<,<=,>,>=; one slot; no nulls
-// verif:outside narrower numeric types, time/duration (see O1 widths), nulls (see O1 nulls), non-numeric kinds (see O1 same-kind / mixed), vectors longer than one slot, Dynamic/Union inputs
-func VerifH_C09_O1_compare_numbers() {
-	lk, rk := verif.Choose("lkind", 3), verif.Choose("rkind", 3)
+// verif:desc C09-O1 comparisons of two integers: vam/expr.Compare.Eval (vector.Apply, coerceVals, promoteToSigned/uintToInt, the generated compare<Op>{Int,Uint}<Form><Form> kernels) on one-slot vectors vs sam/expr.Equal.Eval / Compare.Eval (coerce.Equal, compareNumbers) on the same two values, for all six operators: both error or the same Boolean; the vector side does not panic.
+// verif:bounds lhs,rhs kind in {int64,uint64}^2, any 64-bit payload; vector form of each side in {flat, const, dict, view} (dict/view select slot 1 of a two-slot vector whose slot 0 is arbitrary); ops ==,!=,<,<=,>,>=; one slot; no nulls
+// verif:outside narrower integer types, time/duration (compare_widths), nulls (compare_nulls), floats and non-numeric kinds (other O1 harnesses), vectors longer than one slot, Dynamic/Union inputs
+func VerifH_C09_O1_compare_ints() {
+	lk, rk := verif.Choose("lkind", 2), verif.Choose("rkind", 2)
 	lf, rf := verif.Choose("lform", 4), verif.Choose("rform", 4)
-	l := vMkOperand("l", lk, lf)
-	r := vMkOperand("r", rk, rf)
+	l := vMkOperand("l", vSpec{kind: lk, form: lf})
+	r := vMkOperand("r", vSpec{kind: rk, form: rf})
 	vCheckCompare(l, r, vKindName[lk]+"-"+vKindName[rk])
+}
+
+// verif:desc C09-O1 comparisons of two float64 (kernels compare<Op>Float<Form><Form>) vs sam Equal/Compare (cmp.Compare on floats), all six operators.
+// verif:bounds both sides float64 with any bit pattern (NaN, +-0, +-Inf, subnormals); forms {flat,const,dict,view}^2; one slot; no nulls
+// verif:outside float16/float32 typed vectors
+func VerifH_C09_O1_compare_floats() {
+	lf, rf := verif.Choose("lform", 4), verif.Choose("rform", 4)
+	l := vMkOperand("l", vSpec{kind: vkFloat, form: lf})
+	r := vMkOperand("r", vSpec{kind: vkFloat, form: rf})
+	vCheckCompare(l, r, "float-float")
+}
+
+func vIntFloat(forms int) {
+	ik := verif.Choose("intkind", 2)
+	form := verif.Choose("intform", forms)
+	if verif.Choose("floatside", 2) == 0 {
+		l := vMkOperand("l", vSpec{kind: vkFloat, form: vfFlat})
+		r := vMkOperand("r", vSpec{kind: ik, form: form, narrow: true})
+		vCheckCompare(l, r, "float-"+vKindName[ik])
+	} else {
+		l := vMkOperand("l", vSpec{kind: ik, form: form, narrow: true})
+		r := vMkOperand("r", vSpec{kind: vkFloat, form: vfFlat})
+		vCheckCompare(l, r, vKindName[ik]+"-float")
+	}
+}
+
+// verif:desc C09-O1 comparisons of an integer with a float64 (coerceVals -> intToFloat on the integer side, then the compare<Op>Float kernels) vs sam Equal/Compare (coerce.Equal / compareNumbers converting with ToNumeric[float64]), all six operators.
+// verif:bounds one side int64 or uint64 typed with payload in the int16 / uint16 range and form in {flat,const}; the other side a flat float64 with any bit pattern; both orders; one slot; no nulls
+// verif:outside integer payloads beyond 16 bits (both runtimes use the same Go conversion float64(x)), dict/view integer side (thorough tier), non-flat float side (the Float kernels of all 16 form pairs are covered by compare_floats), float16/float32
+func VerifH_C09_O1_compare_int_float() {
+	vIntFloat(2)
+}
+
+// verif:desc C09-O1 as compare_int_float with the integer side in every form.
+// verif:bounds as compare_int_float, integer side form in {flat,const,dict,view}
+// verif:tier thorough
+func VerifH_C09_O1_compare_int_float_allforms() {
+	vIntFloat(4)
+}
+
+// verif:desc C09-O1 comparisons of two values of the same non-numeric kind: string (compare<Op>String kernels), bytes (compare<Op>Bytes kernels), bool (no vector kernel exists: the vector side must not answer differently) vs sam Equal/Compare (string, bytes and bool cases of Compare.Eval; coerce.Equal), all six operators.
+// verif:bounds kind in {string,bytes,bool}; string/bytes payload 0..2 arbitrary bytes; forms {flat,const,dict,view}^2; one slot; no nulls
+// verif:outside longer payloads, ip/net/type values
+func VerifH_C09_O1_compare_samekind() {
+	k := vkString + verif.Choose("kind", 3)
+	lf, rf := verif.Choose("lform", 4), verif.Choose("rform", 4)
+	l := vMkOperand("l", vSpec{kind: k, form: lf})
+	r := vMkOperand("r", vSpec{kind: k, form: rf})
+	vCheckCompare(l, r, vKindName[k]+"-"+vKindName[k])
+}
+
+// verif:desc C09-O1 comparisons where one or both operands are null (vector side: Nulls bit of the flat / const / dict vector, as vcache.loader builds them) vs sam Equal/Compare null handling.
+// verif:bounds both operands of the same kind in {int64,float64,string}; which side is null: lhs, rhs, both; forms {flat,const,dict,view}^2; one slot
+// verif:outside null of type null (zed.Null constant), mixed kinds with nulls
+func VerifH_C09_O1_compare_nulls() {
+	k := []int{vkInt, vkFloat, vkString}[verif.Choose("kind", 3)]
+	which := verif.Choose("nullside", 3)
+	lf, rf := verif.Choose("lform", 4), verif.Choose("rform", 4)
+	l := vMkOperand("l", vSpec{kind: k, form: lf, null: which != 1})
+	r := vMkOperand("r", vSpec{kind: k, form: rf, null: which != 0})
+	vCheckCompare(l, r, vKindName[k]+"-"+vKindName[k])
+}
+
+// verif:desc C09-O1 comparisons of two values of different, not both numeric kinds (sequential: == false, != true, relational false; the vector side must say the same).
+// verif:bounds ordered pairs of different kinds from {int64,string,bytes,bool}; forms {flat,const}^2; payloads as elsewhere; one slot; no nulls
+// verif:outside dict/view forms (coerceVals rejects on the type ids before looking at the form)
+func VerifH_C09_O1_compare_mixedkinds() {
+	ks := []int{vkInt, vkString, vkBytes, vkBool}
+	lk := ks[verif.Choose("lkind", 4)]
+	rk := ks[verif.Choose("rkind", 4)]
+	verif.Assume(lk != rk)
+	lf, rf := verif.Choose("lform", 2), verif.Choose("rform", 2)
+	l := vMkOperand("l", vSpec{kind: lk, form: lf})
+	r := vMkOperand("r", vSpec{kind: rk, form: rf})
+	vCheckCompare(l, r, vKindName[lk]+"-"+vKindName[rk])
+}
+
+var vSignedTypes = []zed.Type{zed.TypeInt8, zed.TypeInt16, zed.TypeInt32, zed.TypeInt64, zed.TypeDuration, zed.TypeTime}
+var vUnsignedTypes = []zed.Type{zed.TypeUint8, zed.TypeUint16, zed.TypeUint32, zed.TypeUint64}
+
+func vChooseIntType(name string, quick bool) (int, zed.Type) {
+	if quick {
+		ts := []zed.Type{zed.TypeInt8, zed.TypeInt32, zed.TypeInt64, zed.TypeTime, zed.TypeUint8, zed.TypeUint32, zed.TypeUint64}
+		k := verif.Choose(name, len(ts))
+		if k < 4 {
+			return vkInt, ts[k]
+		}
+		return vkUint, ts[k]
+	}
+	k := verif.Choose(name, len(vSignedTypes)+len(vUnsignedTypes))
+	if k < len(vSignedTypes) {
+		return vkInt, vSignedTypes[k]
+	}
+	return vkUint, vUnsignedTypes[k-len(vSignedTypes)]
+}
+
+func vCompareWidths(quick bool) {
+	lk, lt := vChooseIntType("ltype", quick)
+	rk, rt := vChooseIntType("rtype", quick)
+	var lf, rf int
+	if quick {
+		// one side in any form, the other flat
+		f := verif.Choose("forms", 7)
+		if f < 4 {
+			lf = f
+		} else {
+			rf = f - 3
+		}
+	} else {
+		lf, rf = verif.Choose("lform", 4), verif.Choose("rform", 4)
+	}
+	l := vMkOperand("l", vSpec{kind: lk, form: lf, typ: lt})
+	r := vMkOperand("r", vSpec{kind: rk, form: rf, typ: rt})
+	kinds := vKindName[lk] + "-" + vKindName[rk]
+	if (lf == vfConst && (lt == zed.TypeInt8 || lt == zed.TypeUint8)) || (rf == vfConst && (rt == zed.TypeInt8 || rt == zed.TypeUint8)) {
+		// vector.KindOfType knows no 8-bit integers; the loader never builds
+		// an 8-bit Const (no dictionary for 8-bit types), a literal could.
+		kinds += "/const8"
+	}
+	vCheckCompare(l, r, kinds)
+}
+
+// verif:desc C09-O1 comparisons of integers of all widths and of time/duration: coerceVals -> promoteWider (Int/Uint.Promote, Const, Dict, View cases) / promoteToSigned, vector.KindOfType, then the Int/Uint kernels, vs sam Equal/Compare.
+// verif:bounds lhs,rhs type in {int8,int32,int64,time,uint8,uint32,uint64}^2, payload any value of the type; one side in {flat,const,dict,view}, the other flat (7 form pairs); six operators; no nulls
+// verif:outside int16/uint16/duration and both sides non-flat (thorough tier)
+func VerifH_C09_O1_compare_widths() {
+	vCompareWidths(true)
+}
+
+// verif:desc C09-O1 compare_widths over every integer type and every form pair.
+// verif:bounds lhs,rhs type in {int8,int16,int32,int64,duration,time,uint8,uint16,uint32,uint64}^2; forms {flat,const,dict,view}^2
+// verif:tier thorough
+func VerifH_C09_O1_compare_widths_all() {
+	vCompareWidths(false)
+}
+
+// ---- O2: arithmetic ----
+
+var vArithOps = []string{"+", "-", "*", "/", "%"}
+
+// vSameValue: same type and same value; floats: both NaN, or equal with the
+// same sign of zero.
+func vSameValue(a, b zed.Value) bool {
+	if a.Type() != b.Type() || a.IsNull() != b.IsNull() {
+		return false
+	}
+	if a.IsNull() {
+		return true
+	}
+	switch id := a.Type().ID(); {
+	case zed.IsFloat(id):
+		x, y := a.Float(), b.Float()
+		if math.Float64bits(x) == math.Float64bits(y) {
+			// the same bits (under gosym: the same term, decided
+			// without the solver)
+			return true
+		}
+		if x != x || y != y {
+			return x != x && y != y
+		}
+		return x == y && math.Signbit(x) == math.Signbit(y)
+	case zed.IsSigned(id):
+		return a.Int() == b.Int()
+	case zed.IsUnsigned(id):
+		return a.Uint() == b.Uint()
+	}
+	return string(a.Bytes()) == string(b.Bytes())
+}
+
+func vIsZero(o vOperand) bool {
+	switch o.kind {
+	case vkInt:
+		return o.i == 0
+	case vkUint:
+		return o.u == 0
+	case vkFloat:
+		return o.f == 0
+	}
+	return false
+}
+
+// vSlot0 reads slot 0 of a result vector without going through the
+// variable-length ZNG encoding of numbers (Serialize + Decode of a symbolic
+// 64-bit number forks on its encoded length): flat and const numeric vectors
+// are read directly, anything else is materialized.
+func vSlot0(vec vector.Any) zed.Value {
+	switch v := vec.(type) {
+	case *vector.Int:
+		if v.Nulls.Value(0) {
+			return zed.NewValue(v.Typ, nil)
+		}
+		return zed.NewInt(v.Typ, v.Values[0])
+	case *vector.Uint:
+		if v.Nulls.Value(0) {
+			return zed.NewValue(v.Typ, nil)
+		}
+		return zed.NewUint(v.Typ, v.Values[0])
+	case *vector.Float:
+		if v.Nulls.Value(0) {
+			return zed.NewValue(v.Typ, nil)
+		}
+		return zed.NewFloat(v.Typ, v.Values[0])
+	case *vector.Const:
+		if v.Nulls.Value(0) {
+			return zed.NewValue(v.Type(), nil)
+		}
+		return v.Value()
+	}
+	return vMaterialize(vec)
+}
+
+// vCheckArith evaluates `l op r` for the given operators in both runtimes and
+// asserts: both errors, or the same typed value.
+func vCheckArith(l, r vOperand, kinds string, ops []string) {
+	zctx := zed.NewContext()
+	base := vKnownRegion(l, r)
+	for _, op := range ops {
+		region := base
+		if region == "" && (op == "/" || op == "%") && vIsZero(r) {
+			region = "zero-divisor"
+		}
+		if region != "" {
+			verif.Reach(region)
+		}
+		id := kinds + "/" + op
+		if region != "" {
+			id = kinds + "/" + region
+		}
+		var vv zed.Value
+		var vlen uint32
+		panicked := vRun(func() {
+			out := NewArith(zctx, vVecEval{l.vec}, vVecEval{r.vec}, op).Eval(nil)
+			vlen = out.Len()
+			vv = vSlot0(out)
+		})
+		se, err := samexpr.NewArithmetic(zctx, samexpr.NewLiteral(l.val), samexpr.NewLiteral(r.val), op)
+		if err != nil {
+			panic(err)
+		}
+		sv := se.Eval(samexpr.NewContext(), zed.Null)
+		verif.Assert(!panicked, "vam-panics/"+id)
+		if panicked {
+			continue
+		}
+		verif.Assert(vlen == 1, "vam-length/"+id)
+		verr, serr := vv.IsError(), sv.IsError()
+		if verr != serr {
+			if verr {
+				verif.Assert(false, "only-vam-errors/"+id)
+			} else {
+				verif.Assert(false, "only-sam-errors/"+id)
+			}
+			continue
+		}
+		if verr {
+			verif.Reach("both-error")
+			continue
+		}
+		verif.Assert(vv.Type() == sv.Type(), "result-type-differs/"+id)
+		if vv.Type() != sv.Type() {
+			continue
+		}
+		verif.Assert(vSameValue(vv, sv), "result-differs/"+id)
+		verif.Reach("both-value")
+	}
+	verif.Reach("end")
+}
+
+// verif:desc C09-O2 arithmetic on two integers: vam/expr.Arith.Eval (coerceVals, promoteToSigned, the generated arith<Op>{Int,Uint}<Form><Form> kernels) vs sam/expr Add/Subtract/Multiply/Divide/Modulo.Eval (coerce.Promote, ToNumeric) on the same values: both error (divide by zero, overflow of the signed promotion) or the same typed value; the vector side does not panic.
+// verif:bounds lhs,rhs kind in {int64,uint64}^2, any 64-bit payload incl. 0, -1, MinInt64; forms {flat,const,dict,view}^2; ops + - * / %; one slot; no nulls
+// verif:outside narrower types (result type of the vector kernels is always 64-bit), nulls, vectors longer than one slot
+func VerifH_C09_O2_arith_ints() {
+	lk, rk := verif.Choose("lkind", 2), verif.Choose("rkind", 2)
+	lf, rf := verif.Choose("lform", 4), verif.Choose("rform", 4)
+	l := vMkOperand("l", vSpec{kind: lk, form: lf})
+	r := vMkOperand("r", vSpec{kind: rk, form: rf})
+	vCheckArith(l, r, vKindName[lk]+"-"+vKindName[rk], vArithOps)
+}
+
+// verif:desc C09-O2 arithmetic on two float64 (arith<Op>Float kernels; there is no Float modulo kernel) vs sam Add/Subtract/Multiply/Divide/Modulo.
+// verif:bounds both sides float64, any bit pattern; forms {flat,const,dict,view}^2; ops + - * /; one slot; no nulls
+// verif:outside float16/float32; the NaN payload bits of a NaN result (both NaN counts as equal); % on floats (no vector kernel; sam builds its error text with zson.FormatType)
+func VerifH_C09_O2_arith_floats() {
+	lf, rf := verif.Choose("lform", 4), verif.Choose("rform", 4)
+	l := vMkOperand("l", vSpec{kind: vkFloat, form: lf})
+	r := vMkOperand("r", vSpec{kind: vkFloat, form: rf})
+	// one operator per path: every computed float that reaches a zed.Value
+	// adds an FP constraint to the path condition
+	vCheckArith(l, r, "float-float", vArithOps[verif.Choose("op", 4):][:1])
+}
+
+// verif:desc C09-O2 arithmetic on an integer and a float64 (coerceVals -> intToFloat then the Float kernels) vs sam (coerce.Promote to float64, ToNumeric[float64]).
+// verif:bounds one side int64/uint64 typed with a 16-bit payload in form {flat,const}, the other a flat float64 of any bit pattern; both orders; ops + - * /; one slot; no nulls
+// verif:outside wider integer payloads, dict/view integer side, %
+func VerifH_C09_O2_arith_int_float() {
+	ik := verif.Choose("intkind", 2)
+	form := verif.Choose("intform", 2)
+	ops := vArithOps[verif.Choose("op", 4):][:1]
+	if verif.Choose("floatside", 2) == 0 {
+		l := vMkOperand("l", vSpec{kind: vkFloat, form: vfFlat})
+		r := vMkOperand("r", vSpec{kind: ik, form: form, narrow: true})
+		vCheckArith(l, r, "float-"+vKindName[ik], ops)
+	} else {
+		l := vMkOperand("l", vSpec{kind: ik, form: form, narrow: true})
+		r := vMkOperand("r", vSpec{kind: vkFloat, form: vfFlat})
+		vCheckArith(l, r, vKindName[ik]+"-float", ops)
+	}
+}
+
+// verif:desc C09-O2 string concatenation with + (arithAddString kernels) vs sam Add.Eval string case.
+// verif:bounds both sides string of 0..2 arbitrary bytes; forms {flat,const,dict,view}^2; one slot; no nulls
+// verif:outside longer strings; - * / % on strings (sam formats an error with zson.FormatType)
+func VerifH_C09_O2_arith_strings() {
+	lf, rf := verif.Choose("lform", 4), verif.Choose("rform", 4)
+	l := vMkOperand("l", vSpec{kind: vkString, form: lf})
+	r := vMkOperand("r", vSpec{kind: vkString, form: rf})
+	vCheckArith(l, r, "string-string", []string{"+"})
 }
